@@ -137,7 +137,11 @@ func solveAll(obls []*Obligation, workDir string, secs int, workers int) {
 			text := o.ctx.render(o.PC, o.Goal, o.Cover, o.Cands)
 			header := fmt.Sprintf("; obligation %s\n; path %s pos %s\n; %s\n", o.ID, o.Path, o.Pos, strings.ReplaceAll(o.Text, "\n", " "))
 			os.WriteFile(file, []byte(header+text), 0o644)
-			o.Result = solve(file, secs)
+			if o.Cover {
+				o.Result = solve(file, 2)
+			} else {
+				o.Result = solve(file, secs)
+			}
 		}(i, o)
 	}
 	wg.Wait()
